@@ -891,9 +891,15 @@ def check_origin_cluster_kept(ctx, rule="EXHAUST"):
     c = ctor[0]
     loop = si.enclosing(c, (ast.For,))[0]
     inner = [(t, p) for t, p in si.effective_guards(c) if any(y is t for y in ast.walk(loop))]
-    start0 = [(t, p) for t, p in inner if ".start" in U(t) and U(t).replace(" ", "").endswith("==0") and p]
+    def _is_start0(t, p):
+        tx = U(t).replace(" ", "")
+        return ".start" in tx and ((tx.endswith("==0") and p) or (tx.endswith("!=0") and not p) or (tx.endswith(">0") and not p))
+
+    start0 = [(t, p) for t, p in inner if _is_start0(t, p)]
     extra = [(t, p) for t, p in inner if (t, p) not in start0]
-    skips = [x for x in ast.walk(loop) if isinstance(x, (ast.Continue, ast.Break))]
+    # skipping the clusters that do *not* start at the origin (`if start != 0: warn; continue`) is the same selection
+    skips = [x for x in ast.walk(loop) if isinstance(x, (ast.Continue, ast.Break))
+             and not all(_is_start0(t, not p) for t, p in si.effective_guards(x) if any(y is t for y in ast.walk(loop)))]
     bad = extra[0][0] if extra else (skips[0] if skips else None)
     ctx.decide(bool(start0) and not extra and not skips, rule, q + ":origin-cluster", (fi, bad) if bad is not None else (fi, c),
                "the cluster starting at the first radial cell becomes the droplet, whatever else holds for it",
